@@ -6,19 +6,28 @@
 (* The metadata store holds five key classes; every write replaces the     *)
 (* whole value of one key with the manager's current in-memory value       *)
 (* (putCaches rewrites both maps, r.save() the whole repo blob):           *)
-(*    R2U  repo id -> root version      V2U  set of known version ids      *)
+(*    R2U  repo id -> root version      V2U  version id -> UUID            *)
 (*    IDS  the three id counters        REPO(r) the repo blob              *)
 (*    MUT(r) persisted-ahead mutation id                                   *)
 (* Every repo-level operation is a fixed program of in-memory steps and    *)
 (* store writes, in the order of datastore/repo_local.go.  Crash may       *)
 (* happen between any two steps; Recover is loadMetadata (with its         *)
 (* tolerant repairs) followed by its own writes.                           *)
+(*                                                                         *)
+(* Growth (C03-3, C03-7, C07-6): UUIDs are modelled next to version ids    *)
+(* (a server-chosen UUID of version v is v itself; a caller may assign any *)
+(* UUID that is not known: a new one or one freed by deleterepo /          *)
+(* hide-branch); nodes carry a branch, instances a name; the requests      *)
+(* deleterepo, hide-branch, make-master, rename, deletedata (acknowledged  *)
+(* before its writes), tag and the caller-assigned variants of newrepo /   *)
+(* newversion have their programs; Obs includes the set of known UUIDs.    *)
 (***************************************************************************)
-EXTENDS Integers, Sequences, FiniteSets, TLC
+EXTENDS Integers, Sequences, FiniteSets, TLC, SequencesExt
 
-CONSTANTS MaxVersions, MaxRepos, MaxInsts, MaxMut, Stride, MaxCrashes
+CONSTANTS MaxVersions, MaxRepos, MaxInsts, MaxMut, Stride, MaxCrashes,
+          MaxAdmin    \* bound on the administrative requests of one behaviour (model checking only)
 
-NoBlob == [nodes |-> {}, locked |-> {}, par |-> <<>>, insts |-> {}]
+NoBlob == [nodes |-> {}, locked |-> {}, par |-> <<>>, insts |-> {}, br |-> <<>>, uu |-> <<>>, names |-> <<>>]
 
 VARIABLES
     mem,     \* in-memory manager state (or "down" when the process is dead)
@@ -28,34 +37,65 @@ VARIABLES
     acked,   \* acknowledged facts: set of records
     issued,  \* identifiers handed out to clients: set of <<kind, id>>
     crashes, \* number of crashes so far
-    up       \* process is up
+    up,      \* process is up
+    nadmin   \* administrative requests so far
 
-vars == <<mem, disk, prog, cur, acked, issued, crashes, up>>
+vars == <<mem, disk, prog, cur, acked, issued, crashes, up, nadmin>>
 
-EmptyMem == [r2u |-> <<>>, v2u |-> {}, rid |-> 1, vid |-> 1, iid |-> 1,
-             blob |-> <<>>, mutcur |-> <<>>, mutsaved |-> <<>>]
-EmptyDisk == [r2u |-> <<>>, v2u |-> {}, rid |-> 1, vid |-> 1, iid |-> 1, blob |-> <<>>, mut |-> <<>>]
+EmptyMem == [r2u |-> <<>>, v2u |-> <<>>, rid |-> 1, vid |-> 1, iid |-> 1,
+             blob |-> <<>>, mutcur |-> <<>>, mutsaved |-> <<>>, deleting |-> {}]
+\* (deleting: the deletion flags of data instances, serialized with their repo's blob)
+EmptyDisk == [r2u |-> <<>>, v2u |-> <<>>, rid |-> 1, vid |-> 1, iid |-> 1, blob |-> <<>>, mut |-> <<>>, deleting |-> {}]
 
 \* functions over small integer domains are kept as partial functions
 Dom(f) == DOMAIN f
+Ran(f) == {f[x] : x \in DOMAIN f}
 Upd(f, k, v) == [x \in (DOMAIN f) \cup {k} |-> IF x = k THEN v ELSE f[x]]
 Del(f, k) == [x \in (DOMAIN f) \ {k} |-> f[x]]
+DelSet(f, S) == [x \in (DOMAIN f) \ S |-> f[x]]
+
+\* the UUID string a caller may invent (server-chosen UUIDs are the version numbers)
+NewString == 100
 
 Init ==
     /\ mem = EmptyMem /\ disk = EmptyDisk
     /\ prog = <<>> /\ cur = [op |-> "none"]
-    /\ acked = {} /\ issued = {} /\ crashes = 0 /\ up = TRUE
+    /\ acked = {} /\ issued = {} /\ crashes = 0 /\ up = TRUE /\ nadmin = 0
 
 Idle == up /\ prog = <<>>
 
 (***************************************************************************)
 (* Steps.  A step is a record [k |-> kind, ...].                           *)
 (***************************************************************************)
-RepoOfVersion(m, v) == CHOOSE r \in Dom(m.blob) : v \in m.blob[r].nodes
+\* children of v that carry branch b (getChildBranchNode)
+ChildOn(bl, v, b) == {c \in bl.nodes : bl.br[c] = b /\ \E i \in 1..Len(bl.par[c]) : bl.par[c][i] = v}
 
-ApplyMemStep(m, s) ==
-    CASE s.k = "allocV" ->   \* newUUID, in memory: register version, bump counter
-            [m EXCEPT !.v2u = @ \cup {s.v}, !.vid = @ + 1]
+\* v and its descendants along branch b (the loop of makeMaster), at most MaxVersions long
+RECURSIVE Chain(_, _, _, _)
+Chain(bl, v, b, n) ==
+    IF n = 0 \/ ChildOn(bl, v, b) = {} THEN {v}
+    ELSE {v} \cup Chain(bl, CHOOSE c \in ChildOn(bl, v, b) : TRUE, b, n - 1)
+
+\* the versions of branch b
+OnBranch(bl, b) == {v \in bl.nodes : bl.br[v] = b}
+
+HideIn(bl, b) ==
+    LET gone == OnBranch(bl, b) IN
+    [bl EXCEPT !.nodes = @ \ gone, !.locked = @ \ gone, !.par = DelSet(@, gone),
+               !.br = DelSet(@, gone), !.uu = DelSet(@, gone)]
+
+\* make-master of v (first version of branch b, branched off the master version p whose master child is s):
+\* the old master chain from s takes the name nb, the chain of v on b becomes master (0)
+MasterIn(bl, v, s, nb) ==
+    LET b == bl.br[v]
+        old == Chain(bl, s, 0, MaxVersions)
+        new == Chain([bl EXCEPT !.br = [x \in DOMAIN @ |-> IF x \in old THEN nb ELSE @[x]]], v, b, MaxVersions)
+    IN [bl EXCEPT !.br = [x \in DOMAIN @ |-> IF x \in old THEN nb ELSE IF x \in new THEN 0 ELSE @[x]]]
+
+\* (d is the store the step reads: initMutationID reads the persisted mutation id)
+ApplyMemStepD(m, d, s) ==
+    CASE s.k = "allocV" ->   \* newUUID, in memory: register version with its UUID, bump counter
+            [m EXCEPT !.v2u = Upd(@, s.v, s.u), !.vid = @ + 1]
       [] s.k = "allocR" ->   \* newRepoID
             [m EXCEPT !.rid = @ + 1]
       [] s.k = "allocI" ->
@@ -63,78 +103,151 @@ ApplyMemStep(m, s) ==
       [] s.k = "mapRepo" ->  \* repoToUUID[id] = root
             [m EXCEPT !.r2u = Upd(@, s.r, s.v)]
       [] s.k = "mkRepo" ->
-            [m EXCEPT !.blob = Upd(@, s.r, [nodes |-> {s.v}, locked |-> {}, par |-> Upd(<<>>, s.v, <<>>), insts |-> {}])]
+            [m EXCEPT !.blob = Upd(@, s.r, [nodes |-> {s.v}, locked |-> {}, par |-> Upd(<<>>, s.v, <<>>), insts |-> {},
+                                            br |-> Upd(<<>>, s.v, 0), uu |-> Upd(<<>>, s.v, m.v2u[s.v]), names |-> <<>>])]
       [] s.k = "mkNode" ->
-            [m EXCEPT !.blob = Upd(@, s.r, [@[s.r] EXCEPT !.nodes = @ \cup {s.v}, !.par = Upd(@, s.v, s.ps)])]
+            [m EXCEPT !.blob = Upd(@, s.r, [@[s.r] EXCEPT !.nodes = @ \cup {s.v}, !.par = Upd(@, s.v, s.ps),
+                                                          !.br = Upd(@, s.v, s.b), !.uu = Upd(@, s.v, m.v2u[s.v])])]
       [] s.k = "lock" ->
             [m EXCEPT !.blob = Upd(@, s.r, [@[s.r] EXCEPT !.locked = @ \cup {s.v}])]
       [] s.k = "mkInst" ->
-            [m EXCEPT !.blob = Upd(@, s.r, [@[s.r] EXCEPT !.insts = @ \cup {s.i}])]
+            [m EXCEPT !.blob = Upd(@, s.r, [@[s.r] EXCEPT !.insts = @ \cup {s.i}, !.names = Upd(@, s.i, 0)])]
       [] s.k = "mutInit" ->  \* initMutationID: cur from disk (or start), saved = cur + Stride
-            LET c == IF s.r \in Dom(disk.mut) THEN disk.mut[s.r] ELSE 0 IN
+            LET c == IF s.r \in Dom(d.mut) THEN d.mut[s.r] ELSE 0 IN
             [m EXCEPT !.mutcur = Upd(@, s.r, c), !.mutsaved = Upd(@, s.r, c + Stride)]
       [] s.k = "mutNext" ->  \* newMutationID, in memory
             [m EXCEPT !.mutcur = Upd(@, s.r, @[s.r] + 1)]
       [] s.k = "mutAhead" ->
             [m EXCEPT !.mutsaved = Upd(@, s.r, @[s.r] + Stride)]
-      [] s.k = "unmapRepo" ->  \* deleteRepo, in memory: the repo, its root entry and its versions leave the maps
-            [m EXCEPT !.r2u = Del(@, s.r), !.v2u = @ \ m.blob[s.r].nodes, !.blob = Del(@, s.r),
-                      !.mutcur = Del(@, s.r), !.mutsaved = Del(@, s.r)]
+      [] s.k = "dropRepo" -> \* deleteRepo: the repo and its versions leave every in-memory table
+            [m EXCEPT !.r2u = Del(@, s.r), !.v2u = DelSet(@, m.blob[s.r].nodes), !.blob = Del(@, s.r),
+                      !.mutcur = Del(@, s.r), !.mutsaved = Del(@, s.r),
+                      !.deleting = {x \in @ : x[1] # s.r}]
+      [] s.k = "hide" ->     \* hideBranch
+            [m EXCEPT !.v2u = DelSet(@, OnBranch(m.blob[s.r], s.b)), !.blob = Upd(@, s.r, HideIn(m.blob[s.r], s.b))]
+      [] s.k = "mkMaster" ->
+            [m EXCEPT !.blob = Upd(@, s.r, MasterIn(m.blob[s.r], s.v, s.s, s.nb))]
+      [] s.k = "rename" ->
+            [m EXCEPT !.blob = Upd(@, s.r, [@[s.r] EXCEPT !.names = Upd(@, s.i, 1 - @[s.i])])]
+      [] s.k = "markDel" ->  \* SetDeleted(true): in memory only, the instance is hidden at once
+            [m EXCEPT !.deleting = @ \cup {<<s.r, s.i>>}]
+      [] s.k = "rmInst" ->
+            [m EXCEPT !.blob = Upd(@, s.r, [@[s.r] EXCEPT !.insts = @ \ {s.i}, !.names = Del(@, s.i)]),
+                      !.deleting = @ \ {<<s.r, s.i>>}]
       [] OTHER -> m
+
+ApplyMemStep(m, s) == ApplyMemStepD(m, disk, s)
 
 ApplyWrite(d, m, s) ==
     CASE s.k = "wR2U" -> [d EXCEPT !.r2u = m.r2u]
       [] s.k = "wV2U" -> [d EXCEPT !.v2u = m.v2u]
       [] s.k = "wIDS" -> [d EXCEPT !.rid = m.rid, !.vid = m.vid, !.iid = m.iid]
-      [] s.k = "wREPO" -> [d EXCEPT !.blob = Upd(@, s.r, m.blob[s.r])]
+      [] s.k = "wREPO" -> [d EXCEPT !.blob = Upd(@, s.r, m.blob[s.r]),
+                                     !.deleting = {x \in @ : x[1] # s.r} \cup {x \in m.deleting : x[1] = s.r}]
       [] s.k = "wMUT" -> [d EXCEPT !.mut = Upd(@, s.r, m.mutsaved[s.r])]
-      [] s.k = "wDelREPO" -> [d EXCEPT !.blob = Del(@, s.r)]   \* r.delete(): the repo blob is removed
+      [] s.k = "wDelREPO" -> [d EXCEPT !.blob = Del(@, s.r), !.deleting = {x \in @ : x[1] # s.r}]   \* (the MUT key of the repo stays)
       [] OTHER -> d
 
 IsWrite(s) == s.k \in {"wR2U", "wV2U", "wIDS", "wREPO", "wMUT", "wDelREPO"}
 
 PutCaches == <<[k |-> "wR2U"], [k |-> "wV2U"]>>
-NewUUIDSteps(v) == <<[k |-> "allocV", v |-> v]>> \o PutCaches \o <<[k |-> "wIDS"]>>
+NewUUIDSteps(v, u) == <<[k |-> "allocV", v |-> v, u |-> u]>> \o PutCaches \o <<[k |-> "wIDS"]>>
 
 (***************************************************************************)
 (* Operations (started only when idle)                                     *)
 (***************************************************************************)
 \* the programs, one per operation, in the order of repo_local.go
-NewRepoProg(r, v) ==
-    NewUUIDSteps(v) \o <<[k |-> "allocR"], [k |-> "wIDS"], [k |-> "mapRepo", r |-> r, v |-> v]>>
+NewRepoProg(r, v, u) ==
+    NewUUIDSteps(v, u) \o <<[k |-> "allocR"], [k |-> "wIDS"], [k |-> "mapRepo", r |-> r, v |-> v]>>
     \o PutCaches \o <<[k |-> "mkRepo", r |-> r, v |-> v], [k |-> "wREPO", r |-> r],
                       [k |-> "mutInit", r |-> r], [k |-> "wMUT", r |-> r], [k |-> "ack"]>>
-NewVersionProg(r, v, ps) ==
-    NewUUIDSteps(v) \o <<[k |-> "mkNode", r |-> r, v |-> v, ps |-> ps], [k |-> "wREPO", r |-> r], [k |-> "ack"]>>
+NewVersionProg(r, v, u, ps, b) ==
+    NewUUIDSteps(v, u) \o <<[k |-> "mkNode", r |-> r, v |-> v, ps |-> ps, b |-> b], [k |-> "wREPO", r |-> r], [k |-> "ack"]>>
 CommitProg(r, v) == <<[k |-> "lock", r |-> r, v |-> v], [k |-> "wREPO", r |-> r], [k |-> "ack"]>>
 NewDataProg(r, i) ==
     <<[k |-> "allocI"], [k |-> "wIDS"], [k |-> "mkInst", r |-> r, i |-> i], [k |-> "wREPO", r |-> r], [k |-> "ack"]>>
-
-\* deleteRepo (datastore.DeleteRepo, the `repos delete` command): the repo blob is deleted FIRST,
-\* then the repo leaves the in-memory maps, then both maps are persisted.  The order matters for a
-\* crash: the loader drops a map entry that has no blob, but refuses to start on a blob whose repo
-\* id is not in the map (StartupFails).  (The keys of the repo's data instances are removed in the
-\* background and are not part of the metadata; the mutation-id key stays.)
+\* POST node/tag: a child on its own branch with the tag as its UUID, committed at once
+TagProg(r, v, u, p, b) ==
+    NewUUIDSteps(v, u) \o <<[k |-> "mkNode", r |-> r, v |-> v, ps |-> <<p>>, b |-> b], [k |-> "wREPO", r |-> r],
+                            [k |-> "lock", r |-> r, v |-> v], [k |-> "wREPO", r |-> r], [k |-> "ack"]>>
+\* deleteRepo: the blob is deleted from the store, then the in-memory tables, then both caches
 DeleteRepoProg(r) ==
-    <<[k |-> "wDelREPO", r |-> r], [k |-> "unmapRepo", r |-> r]>> \o PutCaches \o <<[k |-> "ack"]>>
+    <<[k |-> "wDelREPO", r |-> r], [k |-> "dropRepo", r |-> r]>> \o PutCaches \o <<[k |-> "ack"]>>
+\* hideBranch: tables in memory, the blob, then both caches
+HideBranchProg(r, b) == <<[k |-> "hide", r |-> r, b |-> b], [k |-> "wREPO", r |-> r]>> \o PutCaches \o <<[k |-> "ack"]>>
+MakeMasterProg(r, v, s, nb) == <<[k |-> "mkMaster", r |-> r, v |-> v, s |-> s, nb |-> nb], [k |-> "wREPO", r |-> r], [k |-> "ack"]>>
+RenameProg(r, i) == <<[k |-> "rename", r |-> r, i |-> i], [k |-> "wREPO", r |-> r], [k |-> "ack"]>>
+\* deleteData: the deletion flag is set and saved with the repo, then the request is acknowledged; the key
+\* deletion (not modelled: data keys), the removal from the repo and the final save happen in a goroutine.
+\* A start-up that finds a saved flag resumes the deletion (ResumeProg).
+DeleteDataProg(r, i) ==
+    <<[k |-> "markDel", r |-> r, i |-> i], [k |-> "wREPO", r |-> r], [k |-> "ack"],
+      [k |-> "rmInst", r |-> r, i |-> i], [k |-> "wREPO", r |-> r], [k |-> "done"]>>
+
+\* newMutationID: cur++ ; when cur reaches saved, persist saved + Stride before returning
+MutNeedsPersist(c, saved) == c + 1 >= saved
+NewMutProg(m, r) ==
+    <<[k |-> "mutNext", r |-> r]>>
+    \o (IF MutNeedsPersist(m.mutcur[r], m.mutsaved[r]) THEN <<[k |-> "mutAhead", r |-> r], [k |-> "wMUT", r |-> r]>> ELSE <<>>)
+    \o <<[k |-> "ack"]>>
+
+\* which of n consecutive allocations after initMutationID writes the MUT key, for a stride
+\* (the allocation of NewMutProg, iterated; FoldLeft is evaluated iteratively)
+MutSchedule(c0, saved0, stride, n) ==
+    FoldLeft(LAMBDA acc, i : IF MutNeedsPersist(acc.c, acc.saved)
+                             THEN [c |-> acc.c + 1, saved |-> acc.saved + stride, out |-> Append(acc.out, 1)]
+                             ELSE [c |-> acc.c + 1, saved |-> acc.saved, out |-> Append(acc.out, 0)],
+             [c |-> c0, saved |-> saved0, out |-> <<>>], [i \in 1..n |-> i]).out
 
 WriteClass(s) == CASE s.k = "wR2U" -> "R2U" [] s.k = "wV2U" -> "V2U" [] s.k = "wIDS" -> "IDS"
-                   [] s.k = "wREPO" -> "REPO" [] s.k = "wMUT" -> "MUT" [] s.k = "wDelREPO" -> "REPO" [] OTHER -> "?"
+                   [] s.k = "wREPO" -> "REPO" [] s.k = "wMUT" -> "MUT" [] s.k = "wDelREPO" -> "DEL-REPO" [] OTHER -> "?"
 WritesOf(p) == LET w == SelectSeq(p, IsWrite) IN [i \in 1..Len(w) |-> WriteClass(w[i])]
+\* the writes before the acknowledgement of a program
+AckPos(p) == CHOOSE i \in 1..Len(p) : p[i].k = "ack"
+WritesBeforeAck(p) == WritesOf(SubSeq(p, 1, AckPos(p)))
+
+\* recovery's own writes for a store whose caches / counters need no repair: MUT per repo
+RecoverWrites(nrepos) == [i \in 1..nrepos |-> "MUT"]
+
 \* the store-write sequence each request must produce (conformance table for the write trace)
-WriteTable == [newrepo |-> WritesOf(NewRepoProg(1, 1)), newversion |-> WritesOf(NewVersionProg(1, 2, <<1>>)),
-               merge |-> WritesOf(NewVersionProg(1, 3, <<1, 2>>)), commit |-> WritesOf(CommitProg(1, 1)),
-               newdata |-> WritesOf(NewDataProg(1, 1)), deleterepo |-> WritesOf(DeleteRepoProg(1))]
+WriteTable == [newrepo |-> WritesOf(NewRepoProg(1, 1, 1)), newversion |-> WritesOf(NewVersionProg(1, 2, 2, <<1>>, 0)),
+               merge |-> WritesOf(NewVersionProg(1, 3, 3, <<1, 2>>, 0)), commit |-> WritesOf(CommitProg(1, 1)),
+               newdata |-> WritesOf(NewDataProg(1, 1)),
+               newrepo_assigned |-> WritesOf(NewRepoProg(1, 1, NewString)),
+               newversion_assigned |-> WritesOf(NewVersionProg(1, 2, NewString, <<1>>, 2)),
+               tag |-> WritesOf(TagProg(1, 2, NewString, 1, 2)),
+               deleterepo |-> WritesOf(DeleteRepoProg(1)),
+               hidebranch |-> WritesOf(HideBranchProg(1, 2)),
+               makemaster |-> WritesOf(MakeMasterProg(1, 3, 2, 4)),
+               rename |-> WritesOf(RenameProg(1, 1)),
+               deletedata_before_ack |-> WritesBeforeAck(DeleteDataProg(1, 1)),
+               deletedata |-> WritesOf(DeleteDataProg(1, 1)),
+               recover1 |-> RecoverWrites(1), recover2 |-> RecoverWrites(2)]
 
 AllNodes(m) == UNION {m.blob[r].nodes : r \in Dom(m.blob)}
+
+\* the UUID of a new version: chosen by the server, or assigned by the caller (an administrative request)
+UUIDChoices(m, v) ==
+    {[u |-> v, adm |-> 0]}
+    \cup (IF nadmin < MaxAdmin
+          THEN {[u |-> x, adm |-> 1] : x \in ((1..(m.vid - 1)) \cup {NewString}) \ Ran(m.v2u)}
+          ELSE {})
 
 StartNewRepo ==
     /\ Idle /\ mem.vid <= MaxVersions /\ mem.rid <= MaxRepos
     /\ LET v == mem.vid
            r == mem.rid IN
-       /\ cur' = [op |-> "newrepo", r |-> r, v |-> v]
-       /\ prog' = NewRepoProg(r, v)
+       \E c \in UUIDChoices(mem, v) :
+         /\ cur' = [op |-> "newrepo", r |-> r, v |-> v, u |-> c.u]
+         /\ prog' = NewRepoProg(r, v, c.u)
+         /\ nadmin' = nadmin + c.adm
     /\ UNCHANGED <<mem, disk, acked, issued, crashes, up>>
+
+\* a child continues its parent's branch unless the parent already has such a child: then it opens a
+\* branch (named by its version); a merge child is on master
+BranchChoices(bl, ps, v) ==
+    IF Len(ps) = 2 THEN {0}
+    ELSE IF ChildOn(bl, ps[1], bl.br[ps[1]]) = {} THEN {bl.br[ps[1]]} ELSE {v}
 
 StartNewVersion ==
     /\ Idle /\ mem.vid <= MaxVersions
@@ -142,8 +255,20 @@ StartNewVersion ==
                                       \cup {<<p, q>> : p \in mem.blob[r].locked, q \in mem.blob[r].locked} :
          /\ Len(ps) = 2 => ps[1] # ps[2]
          /\ LET v == mem.vid IN
-            /\ cur' = [op |-> "newversion", r |-> r, v |-> v, ps |-> ps]
-            /\ prog' = NewVersionProg(r, v, ps)
+            \E b \in BranchChoices(mem.blob[r], ps, v) : \E c \in (IF Len(ps) = 2 THEN {[u |-> v, adm |-> 0]} ELSE UUIDChoices(mem, v)) :
+              /\ cur' = [op |-> "newversion", r |-> r, v |-> v, ps |-> ps, b |-> b, u |-> c.u]
+              /\ prog' = NewVersionProg(r, v, c.u, ps, b)
+              /\ nadmin' = nadmin + c.adm
+    /\ UNCHANGED <<mem, disk, acked, issued, crashes, up>>
+
+StartTag ==
+    /\ Idle /\ mem.vid <= MaxVersions /\ nadmin < MaxAdmin
+    /\ \E r \in Dom(mem.blob) : \E p \in mem.blob[r].locked :
+         LET v == mem.vid IN
+         /\ NewString \notin Ran(mem.v2u)
+         /\ cur' = [op |-> "tag", r |-> r, v |-> v, ps |-> <<p>>, b |-> v, u |-> NewString]
+         /\ prog' = TagProg(r, v, NewString, p, v)
+    /\ nadmin' = nadmin + 1
     /\ UNCHANGED <<mem, disk, acked, issued, crashes, up>>
 
 StartCommit ==
@@ -151,7 +276,7 @@ StartCommit ==
     /\ \E r \in Dom(mem.blob) : \E v \in mem.blob[r].nodes \ mem.blob[r].locked :
          /\ cur' = [op |-> "commit", r |-> r, v |-> v]
          /\ prog' = CommitProg(r, v)
-    /\ UNCHANGED <<mem, disk, acked, issued, crashes, up>>
+    /\ UNCHANGED <<mem, disk, acked, issued, crashes, up, nadmin>>
 
 StartNewData ==
     /\ Idle /\ mem.iid <= MaxInsts
@@ -159,43 +284,108 @@ StartNewData ==
          LET i == mem.iid IN
          /\ cur' = [op |-> "newdata", r |-> r, i |-> i]
          /\ prog' = NewDataProg(r, i)
-    /\ UNCHANGED <<mem, disk, acked, issued, crashes, up>>
+    /\ UNCHANGED <<mem, disk, acked, issued, crashes, up, nadmin>>
 
-\* newMutationID: cur++ ; when cur reaches saved, persist saved + Stride before returning
 StartNewMutID ==
     /\ Idle
     /\ \E r \in Dom(mem.mutcur) :
          /\ mem.mutcur[r] < MaxMut
          /\ cur' = [op |-> "newmut", r |-> r, id |-> mem.mutcur[r]]
-         /\ prog' = <<[k |-> "mutNext", r |-> r]>>
-                    \o (IF mem.mutcur[r] + 1 >= mem.mutsaved[r]
-                        THEN <<[k |-> "mutAhead", r |-> r], [k |-> "wMUT", r |-> r]>> ELSE <<>>)
-                    \o <<[k |-> "ack"]>>
-    /\ UNCHANGED <<mem, disk, acked, issued, crashes, up>>
+         /\ prog' = NewMutProg(mem, r)
+    /\ UNCHANGED <<mem, disk, acked, issued, crashes, up, nadmin>>
 
-\* deleteRepo.  The fact "deleting r" is recorded when the request starts: from then on the
-\* repo may be entirely present or entirely absent (Visible below); once acknowledged it must be
-\* absent.  Not in Next: explored by the configuration of DvidPersistDel_mc (two repos, one of
-\* them a bystander).
+\* facts a request withdraws as soon as it is issued: from then on, until its acknowledgement, a crash
+\* may leave the change done or not done
+RetractedBy(c, f) ==
+    CASE c.op = "deleterepo" -> (f.f \in {"repo", "node", "locked", "inst", "br", "name"} /\ f.r = c.r)
+                                  \/ (f.f = "uuid" /\ f.v \in c.gone)
+      [] c.op = "hidebranch" -> (f.f \in {"node", "locked", "br"} /\ f.r = c.r /\ f.v \in c.gone)
+                                  \/ (f.f = "uuid" /\ f.v \in c.gone)
+      [] c.op = "makemaster" -> f.f = "br" /\ f.r = c.r
+      [] c.op = "rename" -> f.f = "name" /\ f.r = c.r /\ f.i = c.i
+      \* deletion is acknowledged before it is durable: from the acknowledgement on the instance may or may
+      \* not be there after a crash; once the goroutine has saved the repo it is gone for good ("done")
+      [] c.op = "deletedata" -> f.f \in {"inst", "name"} /\ f.r = c.r /\ f.i = c.i
+      [] OTHER -> FALSE
+
 StartDeleteRepo ==
-    /\ Idle
-    /\ \E r \in Dom(mem.blob) \cap Dom(mem.r2u) :
-         /\ cur' = [op |-> "deleterepo", r |-> r]
+    /\ Idle /\ nadmin < MaxAdmin
+    /\ \E r \in Dom(mem.blob) :
+         /\ cur' = [op |-> "deleterepo", r |-> r, gone |-> mem.blob[r].nodes]
+         /\ acked' = {f \in acked : ~RetractedBy([op |-> "deleterepo", r |-> r, gone |-> mem.blob[r].nodes], f)}
          /\ prog' = DeleteRepoProg(r)
-         /\ acked' = acked \cup {[f |-> "deleting", r |-> r]}
+    /\ nadmin' = nadmin + 1
     /\ UNCHANGED <<mem, disk, issued, crashes, up>>
 
+\* refused when a version of another branch descends from the branch
+CanHide(bl, b) ==
+    /\ b # 0 /\ OnBranch(bl, b) # {}
+    /\ \A c \in bl.nodes : bl.br[c] # b => \A i \in 1..Len(bl.par[c]) : bl.br[bl.par[c][i]] # b
+
+StartHideBranch ==
+    /\ Idle /\ nadmin < MaxAdmin
+    /\ \E r \in Dom(mem.blob) : \E b \in Ran(mem.blob[r].br) :
+         /\ CanHide(mem.blob[r], b)
+         /\ cur' = [op |-> "hidebranch", r |-> r, b |-> b, gone |-> OnBranch(mem.blob[r], b)]
+         /\ acked' = {f \in acked : ~RetractedBy([op |-> "hidebranch", r |-> r, b |-> b, gone |-> OnBranch(mem.blob[r], b)], f)}
+         /\ prog' = HideBranchProg(r, b)
+    /\ nadmin' = nadmin + 1
+    /\ UNCHANGED <<mem, disk, issued, crashes, up>>
+
+\* v: not on master, its first parent on master with a master child s
+MasterSiblings(bl, v) ==
+    IF bl.br[v] = 0 \/ Len(bl.par[v]) = 0 \/ bl.br[bl.par[v][1]] # 0 THEN {}
+    ELSE ChildOn(bl, bl.par[v][1], 0)
+
+StartMakeMaster ==
+    /\ Idle /\ nadmin < MaxAdmin
+    /\ \E r \in Dom(mem.blob) : \E v \in mem.blob[r].nodes : \E s \in MasterSiblings(mem.blob[r], v) :
+         LET nb == MaxVersions + v IN    \* the caller's name for the old master versions (unused so far)
+         /\ cur' = [op |-> "makemaster", r |-> r, v |-> v, s |-> s, nb |-> nb,
+                    after |-> MasterIn(mem.blob[r], v, s, nb).br]
+         /\ acked' = {f \in acked : ~RetractedBy([op |-> "makemaster", r |-> r, v |-> v, s |-> s, nb |-> nb,                     after |-> MasterIn(mem.blob[r], v, s, nb).br], f)}
+         /\ prog' = MakeMasterProg(r, v, s, nb)
+    /\ nadmin' = nadmin + 1
+    /\ UNCHANGED <<mem, disk, issued, crashes, up>>
+
+StartRename ==
+    /\ Idle /\ nadmin < MaxAdmin
+    /\ \E r \in Dom(mem.blob) : \E i \in mem.blob[r].insts :
+         /\ <<r, i>> \notin mem.deleting
+         /\ cur' = [op |-> "rename", r |-> r, i |-> i, n |-> 1 - mem.blob[r].names[i]]
+         /\ acked' = {f \in acked : ~RetractedBy([op |-> "rename", r |-> r, i |-> i, n |-> 1 - mem.blob[r].names[i]], f)}
+         /\ prog' = RenameProg(r, i)
+    /\ nadmin' = nadmin + 1
+    /\ UNCHANGED <<mem, disk, issued, crashes, up>>
+
+StartDeleteData ==
+    /\ Idle /\ nadmin < MaxAdmin
+    /\ \E r \in Dom(mem.blob) : \E i \in mem.blob[r].insts :
+         /\ <<r, i>> \notin mem.deleting
+         /\ cur' = [op |-> "deletedata", r |-> r, i |-> i]
+         /\ acked' = {f \in acked : ~RetractedBy([op |-> "deletedata", r |-> r, i |-> i], f)}
+         /\ prog' = DeleteDataProg(r, i)
+    /\ nadmin' = nadmin + 1
+    /\ UNCHANGED <<mem, disk, issued, crashes, up>>
+
+\* facts acknowledged by the operation in progress
 AckFact ==
-    CASE cur.op = "deleterepo" -> {[f |-> "norepo", r |-> cur.r]}
-      [] cur.op = "newrepo" -> {[f |-> "repo", r |-> cur.r, v |-> cur.v]}
-      [] cur.op = "newversion" -> {[f |-> "node", r |-> cur.r, v |-> cur.v, ps |-> cur.ps]}
+    CASE cur.op = "newrepo" -> {[f |-> "repo", r |-> cur.r, v |-> cur.v], [f |-> "uuid", v |-> cur.v, u |-> cur.u]}
+      [] cur.op \in {"newversion", "tag"} ->
+            {[f |-> "node", r |-> cur.r, v |-> cur.v, ps |-> cur.ps], [f |-> "uuid", v |-> cur.v, u |-> cur.u],
+             [f |-> "br", r |-> cur.r, v |-> cur.v, b |-> cur.b]}
+            \cup (IF cur.op = "tag" THEN {[f |-> "locked", r |-> cur.r, v |-> cur.v]} ELSE {})
       [] cur.op = "commit" -> {[f |-> "locked", r |-> cur.r, v |-> cur.v]}
-      [] cur.op = "newdata" -> {[f |-> "inst", r |-> cur.r, i |-> cur.i]}
+      [] cur.op = "newdata" -> {[f |-> "inst", r |-> cur.r, i |-> cur.i], [f |-> "name", r |-> cur.r, i |-> cur.i, n |-> 0]}
+      [] cur.op = "deleterepo" -> {[f |-> "norepo", r |-> cur.r]} \cup {[f |-> "nouuid", v |-> x] : x \in cur.gone}
+      [] cur.op = "hidebranch" -> {[f |-> "nonode", r |-> cur.r, v |-> x] : x \in cur.gone} \cup {[f |-> "nouuid", v |-> x] : x \in cur.gone}
+      [] cur.op = "makemaster" -> {[f |-> "br", r |-> cur.r, v |-> x, b |-> cur.after[x]] : x \in DOMAIN cur.after}
+      [] cur.op = "rename" -> {[f |-> "name", r |-> cur.r, i |-> cur.i, n |-> cur.n]}
       [] OTHER -> {}
 
 IssuedNow ==
     CASE cur.op = "newrepo" -> {<<"repo", cur.r>>, <<"version", cur.v>>}
-      [] cur.op = "newversion" -> {<<"version", cur.v>>}
+      [] cur.op \in {"newversion", "tag"} -> {<<"version", cur.v>>}
       [] cur.op = "newdata" -> {<<"inst", cur.i>>}
       [] cur.op = "newmut" -> {<<"mut" , cur.r, cur.id>>}
       [] OTHER -> {}
@@ -207,12 +397,16 @@ Step ==
        /\ IF s.k = "ack"
           THEN /\ acked' = acked \cup AckFact
                /\ issued' = issued \cup IssuedNow
-               /\ cur' = [op |-> "none"]
+               /\ cur' = IF Tail(prog) = <<>> THEN [op |-> "none"] ELSE cur
                /\ UNCHANGED <<mem, disk>>
+          ELSE IF s.k = "done"
+          THEN /\ acked' = acked \cup {[f |-> "noinst", r |-> cur.r, i |-> cur.i]}
+               /\ cur' = [op |-> "none"]
+               /\ UNCHANGED <<mem, disk, issued>>
           ELSE /\ IF IsWrite(s) THEN disk' = ApplyWrite(disk, mem, s) /\ mem' = mem
                                 ELSE mem' = ApplyMemStep(mem, s) /\ disk' = disk
                /\ UNCHANGED <<acked, issued, cur>>
-    /\ UNCHANGED <<crashes, up>>
+    /\ UNCHANGED <<crashes, up, nadmin>>
 
 (***************************************************************************)
 (* Crash and recovery                                                      *)
@@ -224,24 +418,37 @@ Crash ==
     /\ up /\ crashes < MaxCrashes /\ MutBounded
     /\ up' = FALSE /\ crashes' = crashes + 1
     /\ prog' = <<>>
-    /\ UNCHANGED <<mem, disk, acked, issued, cur>>   \* cur keeps the interrupted operation for the invariant
+    /\ UNCHANGED <<mem, disk, acked, issued, cur, nadmin>>   \* cur keeps the interrupted operation for the invariant
 
 \* loadMetadata: maps and counters from disk; blobs; versions found in blobs are re-added to
-\* V2U; repo ids without blob are dropped; the version counter is raised above every known
-\* version; mutation ids reloaded and re-persisted ahead.
-Loaded ==
-    LET blobVersions == UNION {disk.blob[r].nodes : r \in Dom(disk.blob)}
-        v2u == disk.v2u \cup blobVersions
-        r2u == [r \in {x \in Dom(disk.r2u) : x \in Dom(disk.blob)} |-> disk.r2u[r]]
-        maxv == IF v2u = {} THEN 0 ELSE CHOOSE x \in v2u : \A y \in v2u : y <= x
-    IN [r2u |-> r2u, v2u |-> v2u, rid |-> disk.rid,
-        vid |-> IF maxv >= disk.vid THEN maxv + 1 ELSE disk.vid,
-        iid |-> disk.iid, blob |-> disk.blob,
-        mutcur |-> [r \in Dom(r2u) |-> IF r \in Dom(disk.mut) THEN disk.mut[r] ELSE 0],
-        mutsaved |-> [r \in Dom(r2u) |-> (IF r \in Dom(disk.mut) THEN disk.mut[r] ELSE 0) + Stride]]
+\* V2U (with the UUID the blob records); repo ids without blob are dropped; the version counter is
+\* raised above every known version; mutation ids reloaded and re-persisted ahead; the in-memory
+\* deletion marks are gone.
+LoadedFrom(d) ==
+    LET blobVersions == UNION {d.blob[r].nodes : r \in Dom(d.blob)}
+        uuOf(v) == LET r == CHOOSE q \in Dom(d.blob) : v \in d.blob[q].nodes IN d.blob[r].uu[v]
+        v2u == [v \in Dom(d.v2u) \cup blobVersions |-> IF v \in Dom(d.v2u) THEN d.v2u[v] ELSE uuOf(v)]
+        r2u == [r \in {x \in Dom(d.r2u) : x \in Dom(d.blob)} |-> d.r2u[r]]
+        maxv == IF Dom(v2u) = {} THEN 0 ELSE CHOOSE x \in Dom(v2u) : \A y \in Dom(v2u) : y <= x
+    IN [r2u |-> r2u, v2u |-> v2u, rid |-> d.rid,
+        vid |-> IF maxv >= d.vid THEN maxv + 1 ELSE d.vid,
+        iid |-> d.iid, blob |-> d.blob,
+        mutcur |-> [r \in Dom(r2u) |-> IF r \in Dom(d.mut) THEN d.mut[r] ELSE 0],
+        mutsaved |-> [r \in Dom(r2u) |-> (IF r \in Dom(d.mut) THEN d.mut[r] ELSE 0) + Stride],
+        deleting |-> {x \in d.deleting : x[1] \in Dom(d.blob) /\ x[2] \in d.blob[x[1]].insts}]
+Loaded == LoadedFrom(disk)
+
+\* the deletions a start-up resumes: one removal + save per flagged instance
+RECURSIVE ResumeSteps(_)
+ResumeSteps(S) == IF S = {} THEN <<>>
+                  ELSE LET x == CHOOSE y \in S : TRUE IN
+                       <<[k |-> "rmInst", r |-> x[1], i |-> x[2]], [k |-> "wREPO", r |-> x[1]]>> \o ResumeSteps(S \ {x})
 
 \* start-up fails (needs manual repair) when a blob's repo id is not in R2U
 StartupFails == \E r \in Dom(disk.blob) : r \notin Dom(disk.r2u)
+
+MutWrites(m) == [i \in 1..Cardinality(Dom(m.r2u)) |->
+                     [k |-> "wMUT", r |-> CHOOSE r \in Dom(m.r2u) : Cardinality({q \in Dom(m.r2u) : q < r}) = i - 1]]
 
 Recover ==
     /\ ~up /\ ~StartupFails
@@ -250,25 +457,21 @@ Recover ==
     /\ cur' = [op |-> "recover"]
     \* recovery's own writes: repaired caches (when changed), corrected ids, MUT per repo
     /\ prog' = (IF Loaded.v2u # disk.v2u \/ Loaded.r2u # disk.r2u THEN PutCaches ELSE <<>>)
-               \o [i \in 1..Cardinality(Dom(Loaded.r2u)) |->
-                     [k |-> "wMUT", r |-> CHOOSE r \in Dom(Loaded.r2u) :
-                                             Cardinality({q \in Dom(Loaded.r2u) : q < r}) = i - 1]]
+               \o MutWrites(Loaded)
                \o (IF Loaded.vid # disk.vid THEN <<[k |-> "wIDS"]>> ELSE <<>>)
-               \o <<[k |-> "ack"]>>
-    /\ UNCHANGED <<disk, acked, issued, crashes>>
+               \o <<[k |-> "ack"]>> \o ResumeSteps(Loaded.deleting)
+    /\ UNCHANGED <<disk, acked, issued, crashes, nadmin>>
 
 \* a clean restart: stop while idle, start again
 CleanRestart ==
     /\ Idle /\ ~StartupFails /\ MutBounded
     /\ mem' = Loaded
     /\ cur' = [op |-> "recover"]
-    /\ prog' = [i \in 1..Cardinality(Dom(Loaded.r2u)) |->
-                  [k |-> "wMUT", r |-> CHOOSE r \in Dom(Loaded.r2u) :
-                                          Cardinality({q \in Dom(Loaded.r2u) : q < r}) = i - 1]]
-               \o <<[k |-> "ack"]>>
-    /\ UNCHANGED <<disk, acked, issued, crashes, up>>
+    /\ prog' = MutWrites(Loaded) \o <<[k |-> "ack"]>> \o ResumeSteps(Loaded.deleting)
+    /\ UNCHANGED <<disk, acked, issued, crashes, up, nadmin>>
 
 Next == StartNewRepo \/ StartNewVersion \/ StartCommit \/ StartNewData \/ StartNewMutID
+        \/ StartTag \/ StartDeleteRepo \/ StartHideBranch \/ StartMakeMaster \/ StartRename \/ StartDeleteData
         \/ Step \/ Crash \/ Recover \/ CleanRestart
 
 Spec == Init /\ [][Next]_vars
@@ -276,8 +479,12 @@ Spec == Init /\ [][Next]_vars
 (***************************************************************************)
 (* Properties                                                              *)
 (***************************************************************************)
-\* observable projection of the in-memory state (what the API shows)
-Obs(m) == [repos |-> [r \in Dom(m.r2u) \cap Dom(m.blob) |-> m.blob[r]], roots |-> m.r2u]
+\* observable projection of the in-memory state (what the API shows): the repos with their DAG,
+\* flags, branches, UUIDs and instance names (an instance marked deleted is hidden), the roots, and
+\* which UUIDs are known (a request that assigns a known UUID is refused)
+ShownBlob(m, r) == [m.blob[r] EXCEPT !.insts = {i \in @ : <<r, i>> \notin m.deleting},
+                                     !.names = [i \in {j \in DOMAIN @ : <<r, j>> \notin m.deleting} |-> @[i]]]
+Obs(m) == [repos |-> [r \in Dom(m.r2u) \cap Dom(m.blob) |-> ShownBlob(m, r)], roots |-> m.r2u, known |-> Ran(m.v2u)]
 
 \* C03: a restart while idle changes nothing observable
 Act_C03_RestartIsStutter == [][CleanRestart => Obs(mem') = Obs(mem)]_vars
@@ -287,39 +494,46 @@ Inv_C04_StartupSucceeds == ~up => ~StartupFails
 
 \* C04: whenever the process is up and idle, every acknowledged fact is visible and the
 \* metadata is well formed
-\* a repo whose deletion was requested: gone from the observable projection
-Absent(r) == r \notin Dom(mem.blob) /\ r \notin Dom(mem.r2u)
-Deleting(r) == [f |-> "deleting", r |-> r] \in acked
 Visible(f) ==
-    CASE f.f = "deleting" -> TRUE
-      [] f.f = "norepo" -> Absent(f.r)                       \* an acknowledged deletion stays
-      [] Deleting(f.r) /\ Absent(f.r) -> TRUE                \* entirely absent ...
-      [] f.f = "repo" -> f.r \in Dom(mem.blob) /\ f.r \in Dom(mem.r2u) /\ f.v \in mem.blob[f.r].nodes   \* ... or entirely present
+    CASE f.f = "repo" -> f.r \in Dom(mem.blob) /\ f.r \in Dom(mem.r2u) /\ f.v \in mem.blob[f.r].nodes
       [] f.f = "node" -> f.r \in Dom(mem.blob) /\ f.v \in mem.blob[f.r].nodes /\ mem.blob[f.r].par[f.v] = f.ps
       [] f.f = "locked" -> f.r \in Dom(mem.blob) /\ f.v \in mem.blob[f.r].locked
       [] f.f = "inst" -> f.r \in Dom(mem.blob) /\ f.i \in mem.blob[f.r].insts
+      [] f.f = "uuid" -> f.v \in Dom(mem.v2u) /\ mem.v2u[f.v] = f.u
+      [] f.f = "br" -> f.r \in Dom(mem.blob) /\ f.v \in mem.blob[f.r].nodes /\ mem.blob[f.r].br[f.v] = f.b
+      [] f.f = "name" -> f.r \in Dom(mem.blob) /\ f.i \in mem.blob[f.r].insts /\ mem.blob[f.r].names[f.i] = f.n
+      [] f.f = "norepo" -> f.r \notin Dom(mem.blob) /\ f.r \notin Dom(mem.r2u)
+      [] f.f = "nonode" -> f.r \in Dom(mem.blob) => f.v \notin mem.blob[f.r].nodes
+      [] f.f = "noinst" -> f.r \in Dom(mem.blob) => f.i \notin mem.blob[f.r].insts
       [] OTHER -> TRUE
 
 WellFormed(m) ==
     /\ \A r \in Dom(m.blob) : \A v \in m.blob[r].nodes :
-          /\ v \in m.v2u
+          /\ v \in Dom(m.v2u) /\ m.v2u[v] = m.blob[r].uu[v]
           /\ \A i \in 1..Len(m.blob[r].par[v]) :
                 m.blob[r].par[v][i] \in m.blob[r].nodes /\ m.blob[r].par[v][i] \in m.blob[r].locked
     /\ \A r1, r2 \in Dom(m.blob) : r1 # r2 => m.blob[r1].nodes \cap m.blob[r2].nodes = {}
     /\ \A r \in Dom(m.r2u) : r \in Dom(m.blob) => m.r2u[r] \in m.blob[r].nodes
+    \* no UUID names two versions
+    /\ \A v1, v2 \in Dom(m.v2u) : v1 # v2 => m.v2u[v1] # m.v2u[v2]
 
 Inv_C04_Recoverable == Idle => (WellFormed(mem) /\ \A f \in acked : Visible(f))
+
+\* C03-3: when idle, the UUIDs of versions that were deleted or hidden and acknowledged as such are
+\* unknown - in memory and in what a restart would load (so that a caller can assign them again)
+Inv_C03_FreedUUIDsStayFree ==
+    Idle => \A f \in acked : f.f = "nouuid" =>
+               (f.v \notin Dom(mem.v2u) /\ (~StartupFails => f.v \notin Dom(Loaded.v2u)))
 
 \* C12: counters are ahead of every identifier in use, in memory and (when idle) on disk, so
 \* no identifier can be issued twice, across crashes
 Inv_C12_CountersAhead ==
     Idle =>
-      /\ \A v \in mem.v2u : v < mem.vid
+      /\ \A v \in Dom(mem.v2u) : v < mem.vid
       /\ \A r \in Dom(mem.blob) : r < mem.rid /\ \A i \in mem.blob[r].insts : i < mem.iid
       /\ disk.vid >= mem.vid /\ disk.rid >= mem.rid /\ disk.iid >= mem.iid
       /\ \A x \in issued : x[1] = "version" => x[2] < mem.vid
-      /\ \A x \in issued : (x[1] = "mut" /\ x[2] \in Dom(mem.mutcur)) =>   \* (a deleted repo has no counter any more)
-                                x[3] < mem.mutcur[x[2]] /\ mem.mutcur[x[2]] <= mem.mutsaved[x[2]]
+      /\ \A x \in issued : (x[1] = "mut" /\ x[2] \in Dom(mem.mutcur)) => x[3] < mem.mutcur[x[2]] /\ mem.mutcur[x[2]] <= mem.mutsaved[x[2]]
       /\ \A r \in Dom(mem.mutcur) : r \in Dom(disk.mut) => disk.mut[r] >= mem.mutcur[r]
 
 StateConstraint == mem.vid <= MaxVersions + 1 /\ crashes <= MaxCrashes
